@@ -39,7 +39,8 @@ def BOperand.enc : BOperand → FOperand
 /-! ### `min_ / max_` with frames: `df_sync`, then `reducer(_minimum | _maximum)`
 Modelled for operands that are scalars, Series and frames with SEVERAL columns (the driver refuses one-column frames:
 `_align_columns` broadcasts them against a wider frame, turns them into a Series against a Series, and lets pandas align two
-of them BY NAME - see docs/notes/C08.md).  The order of the joint columns is pandas' (`Index.union / intersection`) and not
+of them BY NAME - see docs/notes/C08.md; a frame that `df_sync` leaves with ONE joint column does become a Series against a
+Series, which IS modelled: the result then is a Series).  The order of the joint columns is pandas' (`Index.union / intersection`) and not
 modelled: the model returns them sorted and the harness sorts the implementation's columns before comparing. -/
 
 /-- `_df_recolumn(ts, columns)`, lines 407-412: only frames with several columns are touched -/
@@ -66,13 +67,25 @@ def mmKernelF (k : MM) : FOperand → FOperand → FOperand
   | .ts a, .ts b => .ts { idx := a.idx, vals := (a.vals.zip b.vals).map fun p => k.appO p.1 p.2 }
   | .num p, .df b => .df { idx := b.idx, cols := b.cols.map fun c => (c.1, c.2.map fun y => k.appO p y) }
   | .df a, .num q => .df { idx := a.idx, cols := a.cols.map fun c => (c.1, c.2.map fun x => k.appO x q) }
-  | .ts a, .df b => .df { idx := b.idx, cols := b.cols.map fun c => (c.1, (a.vals.zip c.2).map fun p => k.appO p.1 p.2) }
-  | .df a, .ts b => .df { idx := a.idx, cols := a.cols.map fun c => (c.1, (c.2.zip b.vals).map fun p => k.appO p.1 p.2) }
+  | .ts a, .df b =>
+    -- `as_series`: a frame left with ONE column (one joint column) becomes the Series of that column: the result is a Series
+    if b.cols.length = 1 then .ts { idx := a.idx, vals := (a.vals.zip ((b.cols.head?.map (·.2)).getD [])).map fun p => k.appO p.1 p.2 }
+    else .df { idx := b.idx, cols := b.cols.map fun c => (c.1, (a.vals.zip c.2).map fun p => k.appO p.1 p.2) }
+  | .df a, .ts b =>
+    if a.cols.length = 1 then .ts { idx := a.idx, vals := (((a.cols.head?.map (·.2)).getD []).zip b.vals).map fun p => k.appO p.1 p.2 }
+    else .df { idx := a.idx, cols := a.cols.map fun c => (c.1, (c.2.zip b.vals).map fun p => k.appO p.1 p.2) }
   | .df a, .df b => .df { idx := a.idx, cols := a.cols.map fun c => (c.1, (c.2.zip ((colOf b c.1).getD [])).map fun p => k.appO p.1 p.2) }
 
 /-- `min_(a, b, join, method, columns)`, lines 1397-1410 -/
 def mmListF (k : MM) (how : How) (m : Option Dir) (ch : ColHow) (as bs : List FOperand) : Option FOperand :=
   reducerF (mmKernelF k) (syncF how m ch (as ++ bs))
+
+/-- `_align_columns` of a frame WITHOUT columns (no common column under `'ij'`) and a Series: `pd.concat([b] * 0)` raises
+`ValueError: No objects to concatenate`; with scalars and frames alone the result is the frame without columns -/
+def mmRaises (ch : ColHow) (xs : List FOperand) : Bool :=
+  match (framesOfX xs).map (·.names) with
+  | [] => false
+  | c :: cs => (colsJoin ch c cs).isEmpty && xs.any fun x => match x with | .ts _ => true | _ => false
 
 /-- is every exponent NaN or a non-negative integer? (the domain of the model of `pow_`) -/
 def powDomainF : FOperand → Bool
